@@ -437,6 +437,9 @@ func Validate(profile CertificateProfile, content CertificateContent) bool {
 			} else {
 				if profile.SubjectAttributes.AllowOther {
 					haveAttribute++
+				} else if profile.SubjectAttributes.Attributes[wantAttribute].Optional {
+					//optional attributes may be left out
+					wantAttribute++
 				} else {
 					logging.Warningf("profile violation: expected %v at this position, but got %v and allowOther is false",
 						wantAt, subject[haveAttribute][0].Type)
@@ -448,6 +451,32 @@ func Validate(profile CertificateProfile, content CertificateContent) bool {
 		if haveAttribute < len(content.Subject) && !profile.SubjectAttributes.AllowOther {
 			logging.Warningf("profile violation: provided number of attributes larger than specified in profile while allowOther is false")
 			return false
+		}
+
+		//every non-optional attribute must be present in the subject
+		for _, attr := range profile.SubjectAttributes.Attributes {
+			if attr.Optional {
+				continue
+			}
+			wantAt, err := GetRdnAttributeOid(attr.Attribute)
+			if err != nil {
+				wantAt, err = cert.OidFromString(attr.Attribute)
+				if err != nil {
+					logging.Warningf("profile violation: can't resolve %v to a known attribute OID", attr.Attribute)
+					return false
+				}
+			}
+			found := false
+			for _, rdn := range subject {
+				if wantAt.Equal(rdn[0].Type) {
+					found = true
+					break
+				}
+			}
+			if !found {
+				logging.Warningf("profile violation: mandatory attribute %v is missing", attr.Attribute)
+				return false
+			}
 		}
 	}
 
